@@ -260,4 +260,24 @@ example : exThree.pending = [] ∧ exThree.now = 1500 ∧
     (sweep exCfg exThree.hub 1500).1.chans.map (fun c => (c.1, c.2.state.length)) = [(0, 0), (1, 0)] := by
   decide
 
+/-! ### the interleavings driven on the real code through the event handler (props/C24 `hook` lines)
+
+The correspondence harness uses `BrokerEventHandler.HandlePublication` as a gate: an operation issued inside the
+call for one expiry removal lands between two phase-2 regions of the same sweep.  As label sequences: -/
+
+/-- two keys of two channels are due in one sweep; after the first key's phase-2 region the second key is
+republished, then its own phase-2 region runs: it survives with the new value, exactly one removal is logged
+(`refreshed_not_removed` at work). -/
+example : ((Sys.init.run exCfg [.pub 0 [1] {}, .pub 1 [2] {}, .tick 1000, .phase1, .phase2,
+              .pub 0 [1] { data := 7 }, .phase2]).map
+            (fun s => (s.pending.length, (s.log.filter (·.pub.removed)).map (fun b => (b.ch, b.pub.key)),
+                       (stateOf s.hub 0 [1]).map (·.pub.data), (stateOf s.hub 1 [2]).isSome)))
+    = some (0, [(1, [2])], some 7, false) := by decide
+
+/-- a republish of the same key right after its phase-2 region (the publish lock orders it after the removal's
+dispatch): the log shows the removal (offset 2) before the publication (offset 3). -/
+example : ((Sys.init.run exCfg [.pub 0 [1] {}, .tick 1000, .phase1, .phase2, .pub 0 [1] { data := 7 }]).map
+            (fun s => s.log.map (fun b => (b.pub.removed, b.pub.offset))))
+    = some [(false, 1), (true, 2), (false, 3)] := by decide
+
 end CentrifugeVerif.MapExpiry
